@@ -8,6 +8,7 @@
     best of the instance's own beams."""
 import logging
 import math
+import random
 import time
 import warnings
 
@@ -16,6 +17,9 @@ import torch
 from .. import decode_lib as dl
 from .. import verdict
 from .c11 import adapters as _base_adapters, small_family as _base_family
+
+
+WIDE_ROWS = 16400       # (3 - 1) * 16400 = 32800 > 2^15
 
 
 def adapters():
@@ -82,12 +86,23 @@ def run(tier, seed):
             groups = {}
             for i in fam_w:
                 groups.setdefault(ad.group_key(i), []).append(i)
-            for key, insts in groups.items():
+            jobs = [(insts, None) for insts in groups.values()]
+            if ad.name == "tsp" and W == 3:
+                # WIDE batch: the same instances repeated until (W - 1) * B exceeds 2^15, so that the flat row arithmetic of
+                # the beam bookkeeping (parent * batch_size + b) is exercised beyond the range of a 16-bit index; a sample of
+                # the copies (first, last, 60 drawn) is compared with the specification's beam sets like any other instance
+                base = next(iter(groups.values()))
+                big = (base * (-(-WIDE_ROWS // len(base))))
+                rnd = random.Random(1300 + seed)
+                jobs.append((big, {0, len(big) - 1} | {rnd.randrange(len(big)) for _ in range(60)}))
+            for insts, only_rows in jobs:
                 env, td = dl.reset_with_ids(ad, insts)
                 B = len(insts)
                 out = dl.run_policy(policy, env, td, decode_type="beam_search", beam_width=W, select_best=False)
                 best = dl.run_policy(policy, env, td, decode_type="beam_search", beam_width=W, select_best=True)
                 for b, inst in enumerate(insts):
+                    if only_rows is not None and b not in only_rows:
+                        continue
                     rows = [w * B + b for w in range(W)]
                     real = {}
                     for rr in rows:
